@@ -156,7 +156,7 @@ def run_shard(ctx):
                 cops = bridge_ops + mon.gh.config_ops(cfg, c=3)
                 per_sep[sep] = drv.run(cops + [{'op': 'execute', 'c': 3, 'lang': l_, 'text': t_} for l_, t_ in items])[len(cops):]
             else:
-                per_sep[sep] = mon.run_lines(drv, cfg, items)
+                per_sep[sep] = mon.run_lines(drv, cfg, items, dates=False)
         for bi, (cls, p, amt) in enumerate(batch):
             verdicts = {}
             for sep in SEP_CONFIGS:
